@@ -300,7 +300,7 @@ PROPS["C17"] = {
     "shards": 16,
     "quick_budget_s": 60,
     "thorough_budget_s": 900,
-    "floors": {"any": {"discovered-set-equals-reference-set": 3000, "three-way-outcomes-equal": 3000, "self-instantiation-rejected": 300,
+    "floors": {"any": {"position:new:nested-in-a-later-named-argument": 1000, "discovered-set-equals-reference-set": 3000, "three-way-outcomes-equal": 3000, "self-instantiation-rejected": 300,
                        "outcome:ok": 2000, "position:targets": 500, "position:import:package-path": 500,
                        "position:import:inline-interface:use": 500, "position:interface:use": 500, "position:world:use": 500,
                        "position:world:import-path": 500, "position:world:export-path": 500,
@@ -453,7 +453,7 @@ PROPS["C16"] = {
     "post": _c16_post,
     "quick_budget_s": 90,
     "thorough_budget_s": 900,
-    "floors": {"any": {"distinct-hash-orders-observed": 2, "labels-compared": 300, "composition:ok": 300,
+    "floors": {"any": {"history-with-removals:ok": 500, "distinct-hash-orders-observed": 2, "labels-compared": 300, "composition:ok": 300,
                        "document:printed": 300, "document:diagnostic": 300, "fixture:encoded": 100, "fixture:failed": 400}},
     "rule": "Every one of N fresh worker processes (8 quick / 24 thorough; each with its own std RandomState seeds) runs the same "
             "inputs: (a) generated compositions (3-8 instantiations of few packages so that many same-rank nodes exist, many "
